@@ -255,3 +255,236 @@ fn c01_msg_empty() {
     std::mem::forget(r);
     std::mem::forget(b);
 }
+
+// =============================================================================================
+// C04 / C10: which bytes are fed to the MAC / CRC by the encoder and by the validating decoder.
+// The primitives are replaced by recording stubs (cryptographic strength is outside the claim):
+// the stub copies key and input into ghost buffers and returns the MAC/CRC chosen by the harness.
+// =============================================================================================
+const RCAP: usize = 96;
+struct Recorded {
+    calls: usize,
+    key_len: usize,
+    key0: u8,
+    msg_len: usize,
+    msg: [u8; RCAP],
+}
+static mut REC_MI: Recorded = Recorded { calls: 0, key_len: 0, key0: 0, msg_len: 0, msg: [0; RCAP] };
+static mut REC_SHA: Recorded = Recorded { calls: 0, key_len: 0, key0: 0, msg_len: 0, msg: [0; RCAP] };
+static mut REC_CRC: Recorded = Recorded { calls: 0, key_len: 0, key0: 0, msg_len: 0, msg: [0; RCAP] };
+static mut MAC_MI: [u8; 20] = [0; 20];
+static mut MAC_SHA: [u8; 32] = [0; 32];
+static mut CRC_VAL: u32 = 0;
+
+fn record(r: &mut Recorded, key: &[u8], message: &[u8]) {
+    r.calls += 1;
+    r.key_len = key.len();
+    r.key0 = if key.is_empty() { 0 } else { key[0] };
+    r.msg_len = message.len();
+    if message.len() <= RCAP {
+        r.msg[..message.len()].copy_from_slice(message);
+    }
+}
+fn stub_hmac_sha1(key: &[u8], message: &[u8]) -> Vec<u8> {
+    unsafe {
+        record(&mut REC_MI, key, message);
+        MAC_MI.to_vec()
+    }
+}
+fn stub_hmac_sha256(key: &[u8], message: &[u8]) -> Vec<u8> {
+    unsafe {
+        record(&mut REC_SHA, key, message);
+        MAC_SHA.to_vec()
+    }
+}
+fn stub_crc32(_this: &crc::Crc<u32>, bytes: &[u8]) -> u32 {
+    unsafe {
+        record(&mut REC_CRC, &[], bytes);
+        CRC_VAL
+    }
+}
+
+fn key_ab() -> crate::HMACKey {
+    // "ab" is printable ASCII: OpaqueString is the identity (precis_ascii)
+    match crate::HMACKey::new_short_term("ab") {
+        Ok(k) => k,
+        Err(_) => {
+            kani::assume(false);
+            unreachable!()
+        }
+    }
+}
+
+/// expected MAC/CRC input for the attribute starting at byte `at` (header included) whose padded
+/// end is `end`: final[..at] with the length field := end - 20
+fn check_input(rec: &Recorded, fin: &[u8; RCAP], at: usize, end: usize) {
+    assert!(rec.calls == 1, "C04/C10: the primitive is called exactly once per attribute");
+    assert!(rec.msg_len == at, "C04/C10: MAC/CRC input = the message up to (excluding) the attribute");
+    let l = end - 20;
+    assert!(rec.msg[2] == (l >> 8) as u8 && rec.msg[3] == l as u8, "C04/C10: length field covers the attribute itself");
+    let j: usize = kani::any();
+    kani::assume(j < RCAP);
+    if j < at && j != 2 && j != 3 {
+        assert!(rec.msg[j] == fin[j], "C04/C10: every byte before the attribute (other than the length field) is part of the input");
+    }
+}
+
+/// TAIL: bit 0 = MESSAGE-INTEGRITY, bit 1 = MESSAGE-INTEGRITY-SHA256, bit 2 = FINGERPRINT
+fn c04_tail<const TAIL: u8>() {
+    let key = key_ab();
+    let m: u16 = kani::any();
+    kani::assume(m <= 0x0fff);
+    let (cls, c) = any_class();
+    let tid: [u8; 12] = kani::any();
+    let t: u16 = kani::any();
+    let mut u = UnknownAttributes::default();
+    u.add(t);
+    let mut b = StunMessageBuilder::new(MessageMethod(m), cls).with_transaction_id(TransactionId::from(tid)).with_attribute(u);
+    let mut pos = 20 + 8; // header + UNKNOWN-ATTRIBUTES (4 + 2 + 2 padding)
+    let (mut at_mi, mut at_sha, mut at_fp) = (0usize, 0usize, 0usize);
+    if TAIL & 1 != 0 {
+        b = b.with_attribute(MessageIntegrity::new(key.clone()));
+        at_mi = pos;
+        pos += 24;
+    }
+    if TAIL & 2 != 0 {
+        b = b.with_attribute(MessageIntegritySha256::new(key.clone()));
+        at_sha = pos;
+        pos += 36;
+    }
+    if TAIL & 4 != 0 {
+        b = b.with_attribute(Fingerprint::default());
+        at_fp = pos;
+        pos += 8;
+    }
+    let msg = b.build();
+    unsafe {
+        MAC_MI = kani::any();
+        MAC_SHA = kani::any();
+        CRC_VAL = kani::any();
+        REC_MI.calls = 0;
+        REC_SHA.calls = 0;
+        REC_CRC.calls = 0;
+    }
+    let mut buf = [0x5au8; RCAP];
+    let n = match MessageEncoderBuilder::default().build().encode(&mut buf, &msg) {
+        Ok(n) => n,
+        Err(e) => {
+            std::mem::forget(e);
+            assert!(false, "C01: a message with an integrity/fingerprint tail encodes");
+            return;
+        }
+    };
+    assert!(n == pos);
+    assert!(buf[2] == ((n - 20) >> 8) as u8 && buf[3] == (n - 20) as u8);
+    unsafe {
+        if TAIL & 1 != 0 {
+            assert!(buf[at_mi] == 0x00 && buf[at_mi + 1] == 0x08 && buf[at_mi + 2] == 0 && buf[at_mi + 3] == 20, "C02: MESSAGE-INTEGRITY header");
+            check_input(&REC_MI, &buf, at_mi, at_mi + 24);
+            assert!(REC_MI.key_len == 2 && REC_MI.key0 == b'a', "C04: keyed with the credential's key bytes");
+            let j: usize = kani::any();
+            kani::assume(j < 20);
+            assert!(buf[at_mi + 4 + j] == MAC_MI[j], "C04: the attribute carries the MAC");
+        } else {
+            assert!(REC_MI.calls == 0);
+        }
+        if TAIL & 2 != 0 {
+            assert!(buf[at_sha] == 0x00 && buf[at_sha + 1] == 0x1c && buf[at_sha + 2] == 0 && buf[at_sha + 3] == 32, "C02: MESSAGE-INTEGRITY-SHA256 header");
+            check_input(&REC_SHA, &buf, at_sha, at_sha + 36);
+            assert!(REC_SHA.key_len == 2 && REC_SHA.key0 == b'a');
+            let j: usize = kani::any();
+            kani::assume(j < 32);
+            assert!(buf[at_sha + 4 + j] == MAC_SHA[j]);
+        } else {
+            assert!(REC_SHA.calls == 0);
+        }
+        if TAIL & 4 != 0 {
+            assert!(buf[at_fp] == 0x80 && buf[at_fp + 1] == 0x28 && buf[at_fp + 2] == 0 && buf[at_fp + 3] == 4, "C02: FINGERPRINT header");
+            // CRC input = the message up to FINGERPRINT with the length field already covering it
+            // (FINGERPRINT is the last attribute, so that is the final length field).  Both sides
+            // use the crc crate (its equivalence with a bitwise CRC-32/ISO-HDLC reference is the
+            // c10_crc_* queries' business).
+            let want = crc::Crc::<u32>::new(&crc::CRC_32_ISO_HDLC).checksum(&buf[..at_fp]) ^ 0x5354_554e;
+            let got = ((buf[at_fp + 4] as u32) << 24) | ((buf[at_fp + 5] as u32) << 16) | ((buf[at_fp + 6] as u32) << 8) | buf[at_fp + 7] as u32;
+            assert!(got == want, "C10: value = CRC-32 of the message up to FINGERPRINT (length covering it) XOR 0x5354554e");
+        }
+        // what a validator will feed to the primitives is the same input (appended attributes do
+        // not change it): get_input_text on the final bytes
+        if TAIL & 1 != 0 {
+            match crate::raw::get_input_text(&buf[..n], 0x0008) {
+                Ok(v) => {
+                    assert!(v.len() == REC_MI.msg_len);
+                    let j: usize = kani::any();
+                    kani::assume(j < RCAP);
+                    if j < v.len() {
+                        assert!(v[j] == REC_MI.msg[j], "C04: attributes appended after MESSAGE-INTEGRITY do not invalidate it");
+                    }
+                    std::mem::forget(v);
+                }
+                Err(e) => {
+                    std::mem::forget(e);
+                    assert!(false);
+                }
+            }
+        }
+    }
+    std::mem::forget(msg);
+}
+
+macro_rules! tail_inst {
+    ($($name:ident = $t:expr;)*) => {$(
+        #[kani::proof]
+        #[kani::unwind(260)]
+        #[kani::stub(alloc::fmt::format, nofmt)]
+        #[kani::stub(<crate::types::TransactionId as std::default::Default>::default, tid_any)]
+        #[kani::stub(crate::strings::opaque_string_enforce, crate::verif_attrs::precis_ascii)]
+        #[kani::stub(<crate::attributes::stun::MessageIntegrity as crate::attributes::integrity_attr::HmacSha>::hmac_sha, stub_hmac_sha1)]
+        #[kani::stub(<crate::attributes::stun::MessageIntegritySha256 as crate::attributes::integrity_attr::HmacSha>::hmac_sha, stub_hmac_sha256)]
+        fn $name() { c04_tail::<$t>(); }
+    )*};
+}
+tail_inst! {
+    c04_tail_mi = 1;
+    c04_tail_sha = 2;
+    c04_tail_mi_sha = 3;
+    c10_tail_fp = 4;
+    c04_tail_mi_fp = 5;
+    c04_tail_sha_fp = 6;
+    c04_tail_mi_sha_fp = 7;
+}
+
+// C10: the CRC itself — crc::Crc::<u32>::new(&CRC_32_ISO_HDLC).checksum(x) equals a bitwise
+// reflected CRC-32 (poly 0xEDB88320, init/xorout 0xFFFFFFFF) written from the ISO-HDLC definition
+fn ref_crc32(data: &[u8]) -> u32 {
+    let mut crc: u32 = 0xffff_ffff;
+    let mut i = 0;
+    while i < data.len() {
+        crc ^= data[i] as u32;
+        let mut k = 0;
+        while k < 8 {
+            crc = if crc & 1 != 0 { (crc >> 1) ^ 0xedb8_8320 } else { crc >> 1 };
+            k += 1;
+        }
+        i += 1;
+    }
+    !crc
+}
+fn c10_crc<const N: usize>() {
+    let d: [u8; N] = kani::any();
+    let got = crc::Crc::<u32>::new(&crc::CRC_32_ISO_HDLC).checksum(&d);
+    assert!(got == ref_crc32(&d), "C10: FINGERPRINT uses CRC-32/ISO-HDLC");
+}
+macro_rules! crc_inst {
+    ($($name:ident = $n:expr;)*) => {$(
+        #[kani::proof]
+        #[kani::unwind(260)]
+        fn $name() { c10_crc::<$n>(); }
+    )*};
+}
+crc_inst! {
+    c10_crc_n0 = 0;
+    c10_crc_n1 = 1;
+    c10_crc_n3 = 3;
+    c10_crc_n4 = 4;
+    c10_crc_n8 = 8;
+}
